@@ -266,10 +266,11 @@ def forwarder_rules(run, classes):
             if name.startswith('~') and [c for c in f.calls() if c.get('usr') == own_close.usr]:
                 run.ok('R15', 'forwarder-detached', f.norm, f.loc(), 'destructor delegates to close(ec)')
                 continue
-            drops = [c for c in f.calls() if (c.get('callee') or '').split('::')[-1] == 'reset' and q.render(f, c.get('obj')) == 'm_forwarder' and not c.get('arrow')]
-            drops = [c for c in f.calls() if (c.get('callee') or '').endswith('::reset') and q.render(f, c.get('obj')) == 'm_forwarder' and 'shared_ptr' in (c.get('callee') or '')]
-            det = [c for c in f.calls() if (c.get('callee') or '').endswith('sink_forwarder::reset') and (not c.get('args') or q.strip_casts(c['args'][0])['k'] in ('nullptr', 'defarg') or q.render(f, c['args'][0]) == 'nullptr')]
-            ok = bool(drops) and all(any(q.precedes(f, d_, c) for d_ in det) for c in drops)
+            # the two resets may sit in close()/the destructor or in a helper they call on this socket (q.each_preceded)
+            ev_drop = lambda g_: [c for c in g_.calls() if (c.get('callee') or '').endswith('::reset') and q.render(g_, c.get('obj')) == 'm_forwarder' and 'shared_ptr' in (c.get('callee') or '')]
+            ev_det = lambda g_: [c for c in g_.calls() if (c.get('callee') or '').endswith('sink_forwarder::reset') and (not c.get('args') or q.strip_casts(c['args'][0])['k'] in ('nullptr', 'defarg') or q.render(g_, c['args'][0]) == 'nullptr')]
+            okd, nd = q.each_preceded(f, ev_det, ev_drop)
+            ok = okd and nd > 0
             run.check(ok, 'R15', 'forwarder-detached', '%s%s' % (f.norm, '' if name.startswith('~') else '(ec)'), f.loc(),
                       'the shared forwarder is released without first being detached (m_forwarder->reset()): packets in flight still hold it and would call into this socket', 'm_forwarder->reset() precedes m_forwarder.reset()')
             ff = handlers.FieldResetFlow(fx, B + '::m_forwarder', {cls, B} | ({A} if cls == T else set()))
